@@ -207,7 +207,7 @@ def good_day_grid(rep):
         conv = replay.run([api_case(lat, 10.0, 1.0, d, method, "None") for d in dates])
         valid = [("times" in r and r["times"]["Fajr"] is not None and r["times"]["Isha"] is not None) for r in conv]
         for pol in GOOD:
-            idx = list(range(184, 184 + 366, 3)) + list(range(184, 184 + 12))     # calendar 2023 every 3rd day + early January
+            idx = list(range(184, 184 + 366))     # every day of calendar 2023 (covers mid-gap tie dates and early January)
             test = replay.run([api_case(lat, 10.0, 1.0, dates[k], method, pol) for k in idx])
             for k, r in zip(idx, test):
                 if "times" not in r:
